@@ -43,10 +43,12 @@ import (
 	"go/ast"
 	"go/token"
 	"go/types"
+	"golang.org/x/tools/go/ssa/ssautil"
 	"math"
 	"math/big"
 	"regexp"
 	"sort"
+	"strconv"
 	"strings"
 
 	"golang.org/x/tools/go/ssa"
@@ -638,6 +640,7 @@ func checkDCV2(ctx *Ctx, r *Report) {
 		r.check("K2", "dc3v2.computeCornersInside|corner-bit-means-solid", cin.Pos(), ok, "bit i of the result is set iff the distance at the cell's corner dcCorners[i] (low/high coordinate per axis, a cell size apart) is negative; "+detail)
 	}
 	// --- emissions
+	vertexNames = map[string]map[string]bool{}
 	ev := newEval(ctx, cin.Name(), "Degenerate")
 	ev.evalRoot(fn)
 	sends := eventsOf(ev, "send")
@@ -790,41 +793,74 @@ func sentTriangles(e Event) (tris [][3]*Term, flip *Term, msg string) {
 	if len(e.Args) < 2 {
 		return nil, nil, "send without a value"
 	}
-	sv, ok := e.Args[1].(*SliceV)
-	if !ok || sv.Arr == nil {
-		return nil, nil, "the value sent is not a locally built slice"
-	}
-	agg, ok := e.State.mem[sv.Arr].(*Agg)
-	if !ok {
-		return nil, nil, "slice contents unknown"
-	}
-	hi := len(agg.Elems)
-	if sv.Len >= 0 && sv.Lo+sv.Len <= hi {
-		hi = sv.Lo + sv.Len
-	}
 	atoms := map[string]*Term{}
-	for i := sv.Lo; i < hi; i++ {
-		p, ok := agg.Elems[i].(*Ptr)
-		if !ok || p.Obj == nil {
-			return nil, nil, fmt.Sprintf("element %d of the sent slice is not a single triangle object (%s)", i, shortKey(valKey(agg.Elems[i]), 80))
-		}
-		tv, ok := e.State.mem[p.Obj].(*Agg)
-		if !ok || len(tv.Elems) != 3 {
-			return nil, nil, "triangle contents unknown"
-		}
-		var tri [3]*Term
-		for k, v := range tv.Elems {
-			xv, _ := fieldOf(v, "X")
-			x, ok := xv.(*Term)
-			if !ok {
-				return nil, nil, "vertex component is not a scalar term"
+	var read func(v Val) ([][3]*Term, string)
+	read = func(v Val) ([][3]*Term, string) {
+		if alt, isAlt := v.(*Alt); isAlt && alt.C != nil {
+			// the quad written out once per winding: `if flip { t = {..} } else { t = {..} }`
+			ta, ma := read(alt.A)
+			tb, mb := read(alt.B)
+			if ma != "" || mb != "" {
+				return nil, ma + mb
 			}
-			tri[k] = x
+			if len(ta) != len(tb) {
+				return nil, "the two windings emit different numbers of triangles"
+			}
+			var out [][3]*Term
+			for i := range ta {
+				var tri [3]*Term
+				for k := 0; k < 3; k++ {
+					tri[k] = Ite(alt.C, ta[i][k], tb[i][k])
+				}
+				out = append(out, tri)
+			}
+			return out, ""
+		}
+		sv, ok := v.(*SliceV)
+		if !ok || sv.Arr == nil {
+			return nil, "the value sent is not a locally built slice"
+		}
+		agg, ok := e.State.mem[sv.Arr].(*Agg)
+		if !ok {
+			return nil, "slice contents unknown"
+		}
+		hi := len(agg.Elems)
+		if sv.Len >= 0 && sv.Lo+sv.Len <= hi {
+			hi = sv.Lo + sv.Len
+		}
+		var out [][3]*Term
+		for i := sv.Lo; i < hi; i++ {
+			p, ok := agg.Elems[i].(*Ptr)
+			if !ok || p.Obj == nil {
+				return nil, fmt.Sprintf("element %d of the sent slice is not a single triangle object (%s)", i, shortKey(valKey(agg.Elems[i]), 80))
+			}
+			tv, ok := e.State.mem[p.Obj].(*Agg)
+			if !ok || len(tv.Elems) != 3 {
+				return nil, "triangle contents unknown"
+			}
+			var tri [3]*Term
+			for k, v := range tv.Elems {
+				xv, _ := fieldOf(v, "X")
+				x, ok := xv.(*Term)
+				if !ok {
+					return nil, "vertex component is not a scalar term"
+				}
+				tri[k] = x
+			}
+			out = append(out, tri)
+		}
+		return out, ""
+	}
+	tris, msg = read(e.Args[1])
+	if msg != "" {
+		return nil, nil, msg
+	}
+	for _, tri := range tris {
+		for _, x := range tri {
 			for _, c := range condAtoms(x) {
 				atoms[c.Key()] = c
 			}
 		}
-		tris = append(tris, tri)
 	}
 	if len(tris) != 2 {
 		return nil, nil, fmt.Sprintf("%d triangles emitted per crossing, expected 2", len(tris))
@@ -838,7 +874,23 @@ func sentTriangles(e Event) (tris [][3]*Term, flip *Term, msg string) {
 	return tris, flip, ""
 }
 
-var reLookupOff = regexp.MustCompile(`^vertices\[lookup\(sym:infoI,\{(.*)\}\)\.bufIndex\]\.X$`)
+var (
+	reLookupOff = regexp.MustCompile(`^([\w.]+)\[lookup\(sym:([\w.]+),\{(.*)\}\)\.bufIndex\]\.X$`)
+	reSelfVert  = regexp.MustCompile(`^([\w.]+)\[([\w.]+)\[[^\[\]]*\]\.bufIndex\]\.X$`)
+	reCellPart  = regexp.MustCompile(`^(?:\+\((-?\d+),)?([\w.]+)\[[^\[\]]*\]\.cellIndex\.([XYZ])\)?$`)
+)
+
+// vertexNames: the names the vertex list, the voxel list and the voxel map go by in the terms
+// of one check (parameters, or fields of a parameter); each must be used consistently.
+var vertexNames = map[string]map[string]bool{}
+
+func noteVertexName(kind, name string) bool {
+	if vertexNames[kind] == nil {
+		vertexNames[kind] = map[string]bool{}
+	}
+	vertexNames[kind][name] = true
+	return len(vertexNames[kind]) == 1
+}
 
 // vertexOffset: the cell, relative to the current one, whose vertex the term reads:
 // vertices[info[i].bufIndex].X is the cell itself, vertices[lookup(infoI,{cellIndex+o}).bufIndex].X
@@ -847,31 +899,32 @@ func vertexOffset(t *Term) (iv3, bool) {
 	if t.Op != "a" {
 		return iv3{}, false
 	}
-	if strings.HasPrefix(t.S, "vertices[info[") && strings.HasSuffix(t.S, "].bufIndex].X") && !strings.Contains(t.S, "lookup(") {
-		return iv3{}, true
+	if m := reSelfVert.FindStringSubmatch(t.S); m != nil && !strings.Contains(t.S, "lookup(") {
+		return iv3{}, noteVertexName("vertices", m[1]) && noteVertexName("voxels", m[2])
 	}
 	m := reLookupOff.FindStringSubmatch(t.S)
 	if m == nil {
 		return iv3{}, false
 	}
-	parts := splitTop(m[1])
+	if !noteVertexName("vertices", m[1]) || !noteVertexName("map", m[2]) {
+		return iv3{}, false
+	}
+	parts := splitTop(m[3])
 	if len(parts) != 3 {
 		return iv3{}, false
 	}
 	var o iv3
 	for i, p := range parts {
-		ax := []string{".cellIndex.X", ".cellIndex.Y", ".cellIndex.Z"}[i]
-		switch {
-		case strings.HasPrefix(p, "info[") && strings.HasSuffix(p, ax):
-			o[i] = 0
-		case strings.HasPrefix(p, "+(") && strings.HasSuffix(p, ax+")"):
-			var k int
-			if _, err := fmt.Sscanf(p, "+(%d,", &k); err != nil {
+		pm := reCellPart.FindStringSubmatch(p)
+		if pm == nil || pm[3] != axes3[i] || (pm[1] == "") != !strings.HasSuffix(p, ")") || !noteVertexName("voxels", pm[2]) {
+			return iv3{}, false
+		}
+		if pm[1] != "" {
+			k, err := strconv.Atoi(pm[1])
+			if err != nil {
 				return iv3{}, false
 			}
 			o[i] = k
-		default:
-			return iv3{}, false
 		}
 	}
 	return o, true
@@ -1595,6 +1648,27 @@ func checkWarnOnceBlocks(ctx *Ctx, r *Report) {
 func checkVertexLockBounds(ctx *Ctx, r *Report) {
 	fn := ctx.ssaFunc("render/dc", "dcBoundVertexPosition")
 	rel := ctx.ssaFunc("render/dc", "(*dcOctree).relToSDF")
+	if fn == nil && rel != nil {
+		// under another name (or as a method of the node): the function that maps lattice
+		// offsets to the world and falls back to the mass point
+		for f := range ssautil.AllFunctions(ctx.Prog) {
+			if !inModule(f) || f.Pkg == nil || !strings.HasSuffix(f.Pkg.Pkg.Path(), "/render/dc") || len(f.Blocks) == 0 || f.Parent() != nil {
+				continue
+			}
+			mass, maps := false, false
+			allInstrs(f, func(_ *ssa.BasicBlock, ins ssa.Instruction) {
+				if c, ok := ins.(*ssa.Call); ok {
+					if g := c.Call.StaticCallee(); g != nil {
+						mass = mass || g.Name() == "MassPoint"
+						maps = maps || g == rel
+					}
+				}
+			})
+			if mass && maps && (fn == nil || f.Pos() < fn.Pos()) {
+				fn = f
+			}
+		}
+	}
 	key := "dcBoundVertexPosition|bounds-are-the-node's-own-cell"
 	if fn == nil || rel == nil {
 		r.undecided("K12", key, 0, "dcBoundVertexPosition or relToSDF not found")
@@ -1610,7 +1684,23 @@ func checkVertexLockBounds(ctx *Ctx, r *Report) {
 		r.undecided("K12", key, fn.Pos(), "the function or the lattice-to-world map is not a closed form")
 		return
 	}
-	leaf, q := paramName(fn, 1), paramName(fn, 2)
+	sdfI, leafI, qI := -1, -1, -1
+	for i, p := range fn.Params {
+		ts := p.Type().String()
+		switch {
+		case strings.HasSuffix(ts, "sdf.SDF3") && sdfI < 0:
+			sdfI = i
+		case strings.HasSuffix(ts, "dc.dcOctree") && leafI < 0:
+			leafI = i
+		case strings.HasSuffix(ts, "v3.Vec") && qI < 0:
+			qI = i
+		}
+	}
+	if sdfI < 0 || leafI < 0 || qI < 0 {
+		r.undecided("K12", key, fn.Pos(), "no (shape, node, position) parameters")
+		return
+	}
+	leaf, q := paramName(fn, leafI), paramName(fn, qI)
 	idx := paramName(rel, 2)
 	world := func(ax int, off *Term) *Term {
 		t := substAtoms(W[ax], map[string]*Term{idx + "." + axes3[ax]: off})
@@ -1623,10 +1713,10 @@ func checkVertexLockBounds(ctx *Ctx, r *Report) {
 		// the SDF parameter carries a different name in the two functions
 		return rebuild(t, func(x *Term) *Term {
 			if x.Op == "a" && strings.HasPrefix(x.S, paramName(rel, 1)+".") {
-				return A(paramName(fn, 0) + strings.TrimPrefix(x.S, paramName(rel, 1)))
+				return A(paramName(fn, sdfI) + strings.TrimPrefix(x.S, paramName(rel, 1)))
 			}
 			if x.Op == "call" && strings.HasPrefix(x.S, paramName(rel, 1)+".") {
-				return &Term{Op: "call", S: paramName(fn, 0) + strings.TrimPrefix(x.S, paramName(rel, 1)), Args: x.Args}
+				return &Term{Op: "call", S: paramName(fn, sdfI) + strings.TrimPrefix(x.S, paramName(rel, 1)), Args: x.Args}
 			}
 			return nil
 		})
